@@ -1,4 +1,5 @@
 import TracklibVerif.Model.SimplifyTrack
+import TracklibVerif.Model.SimplifyTie
 import TracklibVerif.Drv.Util
 /-! Driver handler for C16 (simplification), `Float` instantiation (`sqrt = Float.sqrt`, ARGMIN sentinel
 `+inf`, the code's `float('inf')` since 68863c7). Floats are IEEE bit patterns. Commands:
@@ -6,6 +7,9 @@ import TracklibVerif.Drv.Util
                                   reachable with another choice among equally far fixes (`;`-separated),
                                   or `err:recursion` when the recursion does not terminate
   vw <eps> <xs> <ys>            → kept indices
+  vwall <eps> <xs> <ys> <cap>   → kept indices of the code's own run, then ` ` and every output reachable with another choice among
+                                  equally small triangles (`visvalingamAll`, `;`-separated; `Model/SimplifyTie.lean`), or `toomany`
+                                  when a level of the enumeration holds more than `cap` states
   dist <x0> <y0> <x1> <y1> <x2> <y2>  → distance_to_segment
   area <x0> <y0> <x1> <y1> <x2> <y2>  → triangle_area
   distq <6 rationals>           → exact squared distance to the closed segment (`distSegSq` on `Rat`)
@@ -145,6 +149,16 @@ def handle (cmd : String) (args : List String) : String :=
       if xs.length != ys.length || xs.isEmpty then "bad-request" else
       showIdx (visvalingam big eps (mkTrack xs ys))
     | _, _, _ => "bad-request"
+  | "vwall", [e, xs, ys, cap] =>
+    match float? e, floatList? xs, floatList? ys, cap.toNat? with
+    | some eps, some xs, some ys, some cap =>
+      if xs.length != ys.length || xs.isEmpty then "bad-request" else
+      let L := mkTrack xs ys
+      showIdx (visvalingam big eps L) ++ " " ++
+        (match visvalingamAll big eps cap L with
+         | some R => joinWith ";" (R.map showIdx)
+         | none => "toomany")
+    | _, _, _, _ => "bad-request"
   | "dist", _ =>
     match args.mapM float? with
     | some [x0, y0, x1, y1, x2, y2] => showFloat (distanceToSegment Float.sqrt x0 y0 x1 y1 x2 y2)
